@@ -4,8 +4,16 @@ usage: seed_prompt.py Cxx  (worktree /tmp/seed/wt-Cxx, output /tmp/seed/out-Cxx)
 import json, sys
 pid = sys.argv[1]
 rnd = sys.argv[2] if len(sys.argv) > 2 else ""      # e.g. "r2-": worktree /tmp/seed/wt-r2-Cxx
+if rnd.startswith("r4"):
+    extra = (" In this round your changes must need a COMBINATION to manifest: two or three independent features of the input together "
+             "(for example a generic contract AND an interface with an associated type AND a custom chain type; replies AND an overridden "
+             "entry point; a query with resp= AND a forwarded attribute), or a size threshold (the fifth interface, the eleventh argument, "
+             "a list longer than some bound), or an interaction with an earlier step (the second instantiate of the same code, a builder "
+             "reused after build, a reply to a sub-message created by another handler). A change that any single unusual feature exposes "
+             "on its own does not qualify.")
 # VARIANT: round 3 asks for mechanisms that need two cooperating sites or an unusual configuration
-extra = ""
+if not rnd.startswith("r4"):
+    extra = ""
 if rnd.startswith("r3"):
     extra = (" In this round at least one of your changes must be of one of these kinds: (i) two cooperating code sites that each look "
              "fine alone (a helper whose contract silently changes and a caller relying on the old one); (ii) a change that only matters "
